@@ -18,6 +18,7 @@ import uuid
 
 from harness import tlc, tlaval, wire
 from harness.sim.simcluster import SimWorld, FakeNode, make_cluster, SimDeadlock
+from harness.sim.simcluster import SimConnection as simcluster_SimConnection
 
 import cassandra.cluster as ccluster
 from cassandra.policies import HostStateListener, RoundRobinPolicy
@@ -124,7 +125,60 @@ def _neg_script(S, B, hdr, replies):
     return script
 
 
-def negotiate(start, explicit, allow_beta, S, B, hdr="max", via="connect"):
+class _ObservedEvent:
+    """connected_event of an ObservingConnection. set() is the instant from which the thread blocked in
+    Connection.factory() can run: what it would read right then is recorded on the connection."""
+
+    def __init__(self, conn, inner):
+        self._conn, self._inner = conn, inner
+
+    def set(self):
+        if not self._inner.is_set():
+            d = self._conn.__dict__
+            d["_flag_at_wakeup"] = d.get("_unsupported_flag", False)
+        self._inner.set()
+
+    def is_set(self):
+        return self._inner.is_set()
+
+    isSet = is_set
+
+    def clear(self):
+        self._inner.clear()
+
+    def wait(self, timeout=None):
+        return self._inner.wait(timeout)
+
+
+class ObservingConnection(simcluster_SimConnection):
+    """SimConnection on which the client thread's observation (the Observe step of ControlNegotiate.tla) can be
+    scheduled: with `early` the thread waiting in Connection.factory() runs at the very instant connected_event is
+    set, i.e. it reads is_unsupported_proto_version as it was then; otherwise it runs after the event-loop thread
+    has finished the callback (the only schedule a single-threaded simulation produces by itself).  last_error is
+    assigned before the event is set by every reactor, so it needs no such treatment."""
+    early = False
+
+    @property
+    def connected_event(self):
+        return self.__dict__["_observed_event"]
+
+    @connected_event.setter
+    def connected_event(self, ev):
+        self.__dict__["_observed_event"] = _ObservedEvent(self, ev)
+
+    @property
+    def is_unsupported_proto_version(self):
+        d = self.__dict__
+        if ObservingConnection.early and "_flag_at_wakeup" in d:
+            return d["_flag_at_wakeup"]
+        return d.get("_unsupported_flag", False)
+
+    @is_unsupported_proto_version.setter
+    def is_unsupported_proto_version(self, value):
+        self.__dict__["_unsupported_flag"] = value
+
+
+def negotiate(start, explicit, allow_beta, S, B, hdr="max", via="connect", early=False):
     """Run the real negotiation once; returns {"log", "replies", "status", "ver", "error"}.
 
     log     = protocol version of the first frame of every connection the driver opened, up to and including the
@@ -143,8 +197,9 @@ def negotiate(start, explicit, allow_beta, S, B, hdr="max", via="connect"):
             raise NegotiationRunaway("more than %d connection attempts" % MAX_ATTEMPTS)
         orig_open(conn)
     node.on_open = on_open
+    ObservingConnection.early = bool(early)
     cluster = make_cluster(w, [CONTROL], protocol_version=start if explicit else ccluster._NOT_SET,
-                           allow_beta_protocol_version=bool(allow_beta))
+                           allow_beta_protocol_version=bool(allow_beta), connection_class=ObservingConnection)
     if not explicit:
         cluster.protocol_version = start      # where an earlier negotiation (or the application) left it
     out = {"status": None, "error": None}
@@ -180,6 +235,7 @@ def negotiate(start, explicit, allow_beta, S, B, hdr="max", via="connect"):
     out["ver"] = cluster.protocol_version
     out["conn_ver"] = conn.protocol_version if conn is not None else None
     out["handshake_completed"] = ready_at is not None
+    ObservingConnection.early = False
     try:
         if conn is not None and via != "connect":
             conn.close()
